@@ -168,15 +168,14 @@ func (d *Decimal) setString(c *Context, s string) (Condition, error) {
 	if _, ok := d.Coeff.SetString(s, 10); !ok {
 		return 0, fmt.Errorf("parse mantissa: %s", s)
 	}
-	// A numeric string is only accepted if its exponent and its adjusted
-	// exponent are within the package limits, whatever the context would make
-	// of the value (setExponent rounds a value below the lower limit as a
-	// subnormal of the context).
+	// A numeric string is only accepted if its adjusted exponent is within the
+	// package limits, whatever the context would make of the value (setExponent
+	// rounds a value below the lower limit as a subnormal of the context).
 	var sum int64
 	for _, e := range exps {
 		sum += e
 	}
-	if adj := sum + NumDigits(&d.Coeff) - 1; sum < MinExponent || adj < MinExponent {
+	if adj := sum + NumDigits(&d.Coeff) - 1; adj < MinExponent {
 		return c.goError(SystemUnderflow | Underflow)
 	}
 	// No parse errors, can now flag as finite.
@@ -394,12 +393,9 @@ func (d *Decimal) setExponent(c *Context, nd int64, res Condition, xs ...int64) 
 		return SystemOverflow | Overflow
 	}
 	// A value below the lower limit is below every context's MinExponent: it
-	// is a subnormal of c like any other and is rounded as one. Only a normal
-	// number (of many digits) whose exponent is below the limit cannot be
-	// stored.
-	if adj >= int64(c.MinExponent) && sum < MinExponent {
-		return SystemUnderflow | Underflow
-	}
+	// is a subnormal of c like any other and is rounded as one. It is the
+	// adjusted exponent that is limited: the exponent of a normal number of
+	// many digits (a quotient is padded to the precision) can be lower.
 	v := int32(adj)
 
 	// d is subnormal.
